@@ -275,6 +275,7 @@ func init() {
 	planRegistry["C07"] = planC07
 	planRegistry["C10"] = planC10
 	planRegistry["C13"] = planC13
+	planRegistry["C18"] = planC18
 	planRegistry["C14"] = planC14
 	planRegistry["C09"] = planC09
 	planRegistry["C16"] = planC16
@@ -803,5 +804,55 @@ func planC14(tier string) *Plan {
 	}
 	p.Outside = []string{"OnReceive(Commit/PreCommit/RecoveryRequest/RecoveryMessage) and OnTransaction (no clock reading on their own paths beyond what the covered callees do)", "offsets that are not multiples of the timestamp increment (the proposal timestamp is truncated to the increment, so such a shift is not an invariance of the specification itself)", "N other than 4"}
 	p.Explanation = "Relational symbolic execution of the real code: two worlds that differ only by a constant offset of every absolute time reference run the same API call with the same arguments and callback results; readings of the machine's wall clock are unconstrained fresh values in each world. The solver proves, for every pair of related pre-states: same sequence of broadcasts (self-made timestamps shifted by the offset, everything else equal), same Timer.Reset/Extend durations, and related post-states (instants shifted, round-trip estimates and all other fields equal). Any dependence on the wall clock or on the absolute epoch makes one of these assertions satisfiable; the model is replayed natively (the two native runs read the real wall clock at different instants)."
+	return p
+}
+
+func planC18(tier string) *Plan {
+	p := &Plan{Property: "C18", Tier: tier, Patterns: []string{".", "./timer"}, PanicsCount: true}
+	maxLen := 4
+	if tier == "thorough" {
+		maxLen = 5
+	}
+	var seqs [][]int
+	var gen func(cur []int)
+	gen = func(cur []int) {
+		if len(cur) >= 1 {
+			seqs = append(seqs, append([]int(nil), cur...))
+		}
+		if len(cur) == maxLen {
+			return
+		}
+		for op := 1; op <= 4; op++ {
+			if len(cur) == 0 && op > 2 {
+				continue // the documented use starts with a Reset
+			}
+			if op == 4 && len(cur) > 0 && cur[len(cur)-1] == 4 {
+				continue // two waits in a row are one wait
+			}
+			gen(append(cur, op))
+		}
+	}
+	gen(nil)
+	for _, sq := range seqs {
+		pm := map[string]int{}
+		for i, op := range sq {
+			pm[fmt.Sprintf("op%d", i+1)] = op
+		}
+		p.Jobs = append(p.Jobs, &Job{Pkg: dbftPkg + "/timer", Entry: "H_timer", Solver: "cvc5-int", Want: []string{"C18"}, BudgetS: 300, Timeout: 30000, Params: pm})
+	}
+	p.MustCover = []string{"C18.sequence", "C18.zero"}
+	p.MustAssert = []string{"C18.epoch", "C18.delivers", "C18.never.early", "C18.not.late", "C18.zero.immediate", "C18.zero.fresh"}
+	p.Assumptions = append([]string{
+		"Go >= 1.23 runtime timers (go.mod says 1.24): time.NewTimer(d) delivers one value on its channel at creation instant + d (at once for d <= 0) unless Stop was called before; after Stop no stale value can be received; an unreferenced timer delivers to nobody",
+		"the machine clock is non-decreasing; every reading (time.Now, time.Since, inside NewTimer) is a fresh value not smaller than the previous one, so any amount of time may pass between two statements of the library",
+		"single goroutine: the program observes C() only between operations",
+		"durations on a 10 ms grid (0..50 ms) so that a solver model can be replayed in real time",
+	}, commonAssumptions...)
+	p.Bounds = map[string]string{
+		"operations": fmt.Sprintf("every sequence of 1..%d operations from {Reset(h,v,d>0), Reset(h,v,0), Extend(x), let time pass} that starts with a Reset (%d sequences); heights, views, durations and all clock readings symbolic", maxLen, len(seqs)),
+		"durations":  "symbolic multiples 0..5 of 10 ms",
+	}
+	p.Outside = []string{"sequences longer than the bound", "the Go runtime's own scheduling latency (trusted; the natively replayed bound allows 30 ms)", "concurrent use from several goroutines", "Extend before the first Reset (undocumented use)"}
+	p.Explanation = "Symbolic execution of the real timer.New/Reset/Extend/stop/drain/C/Height/View against a model of Go's runtime timers and channels, with every clock reading a fresh non-decreasing solver variable. After each operation sequence the harness observes C() and the solver proves: Height/View are the latest reset's; the timer delivers; the delivery instant is >= (clock just before the latest Reset) + its duration + all extensions since (never early) and <= (clock after the last operation) + that total (no lost time); after a zero-duration reset the value is available at once and is that reset's own instant (no stale expiry of an earlier reset). Blocking forever (send on a full channel, receive on an empty one) is an implicit-panic violation."
 	return p
 }
